@@ -46,12 +46,15 @@ claim("C02",
       "Trusted: rustc MIR; Jsonnet specification typing table transcribed in rules/c02.py. Value-level semantics stay with the repository's tests.",
       "DESIGN.md §2 C02")
 claim("C01",
-      "instance-level call-graph SCC / ownership-cycle analysis, exit-code decision table, who-may-call, concrete-key bound on fmt arguments",
+      "instance-level call-graph SCC / ownership-cycle analysis, exit-code decision table, who-may-call, concrete-key bound on fmt arguments, origin analysis of call argument vectors",
       "Decides structural necessary conditions of C01, not 'no panic on any input': (R1) no native recursion reachable from the public API "
       "(whole-workspace instance call graph with closures, stored fn pointers and trait objects; two recorded known findings: parser and "
       "analyzer recursion) and no recursive drop glue, so evaluation/manifestation/comparison cannot exhaust the native stack; (R2) exit "
       "status is exactly {0,1,2} by main's mapping and nobody calls process::exit/abort; (R3) run-time width/precision passed to core::fmt "
-      "is bounded by u16::MAX on every path; (R6) unsafe code is forbidden in all crates. Evaluator data-stack balance, index and arithmetic "
+      "is bounded by u16::MAX on every path; (R4) byte indices into strings are boundary-exact (UNITS); (R5) every call site of execute_call "
+      "passes an argument vector produced by the parameter check (directly or through a state whose constructors are fed that way), so the "
+      "builtin dispatcher's try_into().unwrap() and parameter lookups cannot panic on a function value of the wrong arity; (R6) unsafe code is "
+      "forbidden in all crates. Evaluator data-stack balance, index and arithmetic "
       "panics and unreachable!() reachability are not decided.",
       "Trusted: rustc MIR and Instance::try_resolve; dependencies are leaves (their own recursion/totality assumed); fn-pointer and dyn "
       "calls are over-approximated by address-taken functions / all impls.",
@@ -68,13 +71,16 @@ claim("C06",
       "public constructor Value::number is the library boundary.",
       "DESIGN.md §2 C06")
 claim("C10",
-      "who-may-construct/write/read queries, weighted-CFG (push/delay) balance analysis with callee summaries, ThunkState decision table, call-graph SCCs",
+      "who-may-construct/write/read queries, weighted-CFG (push/delay) balance analysis with callee summaries, ThunkState decision table, call-graph SCCs, state-push graph with trace-item coverage (zero-weight cycle search)",
       "Decides structural necessary conditions of C10: (R1) the frame counter changes only through push_trace_item/delay_trace_item and the two "
       "trace-item states, max_stack is read only by the single strict limit test that every evaluator iteration passes and whose true edge is "
       "StackOverflow (so raising the limit can change nothing else); (R2) in every Evaluator method no delay precedes its push and no loop has a "
       "positive net number of pushed trace items, so the counter measures nesting and never the number of sibling elements; (R3) an in-progress "
-      "thunk is reported as infinite recursion, a finished one is not re-evaluated; (R4) no native recursion in evaluator/data/gc code. "
-      "That every value-dependent nesting passes through a trace item is not decided.",
+      "thunk is reported as infinite recursion, a finished one is not re-evaluated; (R4) no native recursion in evaluator/data/gc code; (R5) in the "
+      "state-push graph with trace-item coverage, a handler that takes a container from the value stack and forces its elements without a "
+      "trace item is never re-entered frame-free by the states it pushes (no descent into a self-containing or deeply nested value without a "
+      "counted frame). Nesting through expression evaluation beyond R2/R5, `tailstrict` tail calls (deliberately uncounted) and the exact "
+      "off-by-one are not decided.",
       "Trusted: rustc MIR; callee summaries computed over non-error return paths; the outer state-machine loop of run is not a per-element loop.",
       "DESIGN.md §2 C10")
 claim("C03",
@@ -136,8 +142,11 @@ claim("C07",
       "marker on the unchanged sequence (associativity of + on layers is then associativity of list concatenation); (R2) every derived object "
       "gets a fresh fields_order and unchecked asserts, cloned layers a fresh env, cloned expression fields a fresh thunk (so self/super are "
       "late-bound to the final object); (R3) the per-layer visibility decision of has_visible_field over {absent, default, hidden, "
-      "forced-visible, removed}, the field-state mapping and the visible filter. Layer-index arithmetic and value-level associativity are not decided.",
-      "Trusted: rustc MIR; the Jsonnet visibility rule transcribed in rules/c07.py. The merge arithmetic of get_fields_order (Removed depths) stays with the tests.",
+      "forced-visible, removed}, the field-state mapping and the visible filter; (R3b) in the merge of get_fields_order every state that a deeper "
+      "field can still change also reacts to a removal marker (the list used by manifestation/length/objectFields hides what the single-name "
+      "lookups hide); R1 also checks that a removal marker's depth equals the number of layers below it on every path. Other layer-index "
+      "arithmetic and value-level associativity are not decided.",
+      "Trusted: rustc MIR; the Jsonnet visibility rule transcribed in rules/c07.py.",
       "DESIGN.md §2 C07")
 claim("C09",
       "CFG edge-dominance of guards over IR construction with origin equality; binder-insertion/duplicate-check pairing; ENVFLOW abstract interpretation of static environments vs the spec scoping table",
@@ -157,7 +166,9 @@ claim("C04",
       "is called only by the GotThunk arm and the frame carries the very thunk that was taken: each delayed expression runs at most once; (R2) "
       "every lazy IR position (local binds, array items, positional/named arguments, parameter defaults, object fields and locals, comprehension "
       "bodies) reaches State::Expr only through a PendingThunk node in the whole-crate flow graph (closures bound through generic Fn parameters "
-      "included), and does reach one: unused parts are never run; (R3) arguments are forced before a call only under `tailstrict`.",
+      "included), and does reach one: unused parts are never run; (R3) arguments are forced before a call only under `tailstrict`; (R4) the "
+      "functions that allocate the pending thunks of an object's locals / field values run only below a once-cell initialiser, so an object "
+      "local or field is one delayed expression per object.",
       "Trusted: rustc MIR; the laziness table transcribed from the Jsonnet specification (rules/c04.py:LAZY). The flow graph is field-based and "
       "flow-insensitive (sound over-approximation of stored data). Builtins' internal evaluation order is not decided.",
       "DESIGN.md §2 C04")
